@@ -10,7 +10,7 @@
    primality of the concrete moduli stays a visible hypothesis. *)
 From Coq Require Import ZArith Znumtheory List.
 Import ListNotations.
-Require Import V.base.Fld V.model.CurveParams V.model.Curve V.model.PointCodec V.proofs.PointCodec_proofs.
+Require Import V.base.Fld V.model.CurveParams V.model.Curve V.gen.CodecConsts V.model.PointCodec V.proofs.PointCodec_proofs.
 Local Open Scope Z_scope.
 
 (* ---- decoders admit only valid elements (no hypothesis on p where the code re-checks) ---- *)
@@ -160,14 +160,14 @@ Print Assumptions C13_field25519_decode_wide_reduces.
 
 (* ---- square roots: Tonelli–Shanks as coded finds a root of every square ---------------------- *)
 
-Theorem C13_sqrt_correct : forall p e rou, prime p -> (1 <= e)%nat ->
-  p - 1 = 2 ^ Z.of_nat e * (2 * ts_progenitor p e + 1) -> 0 <= ts_progenitor p e ->
+Theorem C13_sqrt_correct : forall p e g rou, prime p -> (1 <= e)%nat ->
+  p - 1 = 2 ^ Z.of_nat e * (2 * g + 1) -> 0 <= g ->
   sq_iter p (e - 1) rou = p - 1 ->
-  forall w, 0 <= w < p -> exists s, ts_sqrt p e rou (mulm p w w) = Some s.
+  forall w, 0 <= w < p -> exists s, ts_sqrt p e g rou (mulm p w w) = Some s.
 Proof. exact ts_sqrt_complete. Qed.
 Print Assumptions C13_sqrt_correct.
 
-Theorem C13_sqrt_sound : forall p e rou v s, ts_sqrt p e rou v = Some s -> mulm p s s = v mod p.
+Theorem C13_sqrt_sound : forall p e g rou v s, ts_sqrt p e g rou v = Some s -> mulm p s s = v mod p.
 Proof. exact ts_sqrt_sound. Qed.
 Print Assumptions C13_sqrt_sound.
 
@@ -282,6 +282,17 @@ Print Assumptions C13_ed25519_codec_ok.
 Theorem C13_p256_codec_ok : prime (wp_p p256_params) -> wcodec_ok p256_codec.
 Proof. exact p256_codec_ok. Qed.
 Print Assumptions C13_p256_codec_ok.
+
+(* the constants regenerated from the field sources on this run (gen/CodecConsts.v: 2-adicity,
+   progenitor exponent, root of unity, modulus, element size) are the ones of the model's curves *)
+Theorem C13_regenerated_constants_tie :
+  k256_fp_modulus = wp_p k256_params /\ p256_fp_modulus = wp_p p256_params /\
+  pallas_fp_modulus = wp_p pallas_params /\ vesta_fp_modulus = wp_p vesta_params /\
+  bls12381_fp_modulus = bls12381_p /\ ed25519_fp_modulus = ep_p ed25519_params /\
+  k256_fp_bytes = 32%nat /\ p256_fp_bytes = 32%nat /\ pallas_fp_bytes = 32%nat /\
+  vesta_fp_bytes = 32%nat /\ bls12381_fp_bytes = 48%nat /\ ed25519_fp_bytes = 32%nat.
+Proof. exact codec_consts_tie. Qed.
+Print Assumptions C13_regenerated_constants_tie.
 
 (* P-256 (finding F2): full statement
      forall P, w_on_curve p256_params P = true -> w_canon p256_codec P ->
